@@ -101,6 +101,8 @@ def gen_case(rng):
     case = {"actors": actors, "prefill": rng.random() < (0.1 if focus else 0.5), "sched_seed": rng.randrange(1 << 31),
             "strategy": rng.choice(["random", "sticky", "sticky", "pct", "targeted", "targeted"]),
             "kills": rng.choice([0, 0, 0, 1, 2]), "compress": rng.random() < 0.15}
+    if rng.random() < 0.25:
+        case["inherit"] = True      # the actors are forked from a parent that has already created the Memory and the wrappers
     if rng.random() < 0.2:
         case["mmap"] = True         # Memory(mmap_mode='r'): a computed result is read back from the store before it is returned
     return case
@@ -202,6 +204,9 @@ def run_thr(case):
                     break
                 if op[0] in ("reduce", "clear", "fclear") and tag == "exception":
                     maint.append((op[0], val[0]))
+                    if val[0] not in ("FileNotFoundError", "OSError", "NotADirectoryError", "PermissionError") and verdict is None:
+                        verdict = {"class": "maintenance_op_broke", "detail": "thread %d: %s raised %s: %s at %s" % (tid, op, val[0], val[1], val[2]),
+                                   "sig": {"what": "maintenance_op_broke", "exc": val[0], "tier": "threads"}}
                     if op[0] == "reduce":
                         verdict = {"class": "reduce_size_raises", "detail": "thread %d: %s raised %s: %s at %s" % (tid, op, val[0], val[1], val[2]),
                                    "sig": {"what": "reduce_size_raises", "exc": val[0], "tier": "threads"}}
@@ -280,7 +285,16 @@ def _do_ops(aid, tid, script, mem, cached, cachedcb, vmod_calls=(), raw=None):
     return out
 
 
-def actor_main(root, aid, scripts, to_ctl, from_ctl, seed, compress, mmap=False):
+def build_wrappers(root, compress, mmap):
+    from joblib import Memory, expires_after
+    vmod = simfs.load_module(root)
+    mem = Memory(os.path.join(root, "cache"), verbose=0, compress=compress, mmap_mode="r" if mmap else None)
+    cached = {n: mem.cache(getattr(vmod, n)) for n in FUNCS}
+    cachedcb = {n: mem.cache(getattr(vmod, n), cache_validation_callback=expires_after(days=1)) for n in FUNCS}
+    return vmod, mem, cached, cachedcb
+
+
+def actor_main(root, aid, scripts, to_ctl, from_ctl, seed, compress, mmap=False, prebuilt=None):
     from joblib import Memory, expires_after
     warnings.simplefilter("ignore")
     __import__("logging").disable(50)
@@ -288,11 +302,15 @@ def actor_main(root, aid, scripts, to_ctl, from_ctl, seed, compress, mmap=False)
     simfs.install(plan)
     simfs.Clock(1.7e9).install(on_sleep=lambda d: plan.point("sleep", root + "/cache"))
     threading.current_thread()._sim_tid = 0
-    vmod = simfs.load_module(root)
-    vmod.ACTOR = aid
-    mem = Memory(os.path.join(root, "cache"), verbose=0, compress=compress, mmap_mode="r" if mmap else None)
-    cached = {n: mem.cache(getattr(vmod, n)) for n in FUNCS}
-    cachedcb = {n: mem.cache(getattr(vmod, n), cache_validation_callback=expires_after(days=1)) for n in FUNCS}
+    if prebuilt is not None:
+        vmod, mem, cached, cachedcb = prebuilt         # created by the parent before the fork (fork-based workers)
+        vmod.ACTOR = aid
+    else:
+        vmod = simfs.load_module(root)
+        vmod.ACTOR = aid
+        mem = Memory(os.path.join(root, "cache"), verbose=0, compress=compress, mmap_mode="r" if mmap else None)
+        cached = {n: mem.cache(getattr(vmod, n)) for n in FUNCS}
+        cachedcb = {n: mem.cache(getattr(vmod, n), cache_validation_callback=expires_after(days=1)) for n in FUNCS}
     raw = {n: getattr(vmod, n) for n in FUNCS}
     simfs.send_msg(to_ctl, (aid, 0, "READY", None, None))
     os.read(from_ctl[0], 1)
@@ -400,6 +418,10 @@ def run_case(case):
                 return fin in injected and open(fin, "rb").read() == injected[fin]
             except OSError:
                 return False
+        prebuilt = None
+        if case.get("inherit"):
+            # the Memory object and the cached wrappers exist before the workers are forked, as with a fork-based pool
+            prebuilt = build_wrappers(root, case["compress"], case.get("mmap", False))
         ents = {}          # (aid, tid) -> dict
         actors = {}
         for aid, scripts in enumerate(case["actors"]):
@@ -412,7 +434,7 @@ def run_case(case):
                     for tid, (r_, w_) in c2a.items():
                         os.close(w_)
                     actor_main(root, aid, scripts, a2c_w, {tid: r_ for tid, (r_, w_) in c2a.items()},
-                               H(case["sched_seed"], aid) % 100000, case["compress"], case.get("mmap", False))
+                               H(case["sched_seed"], aid) % 100000, case["compress"], case.get("mmap", False), prebuilt)
                 except BaseException:  # noqa
                     import traceback
                     try:
@@ -585,6 +607,10 @@ def run_case(case):
                     break
                 if op[0] in ("reduce", "clear", "fclear") and tag == "exception":
                     maint.append((op[0], val[0], val[2][-1][2] if val[2] else None, [f[2] for f in val[2]][-3:]))
+                    if val[0] not in ("FileNotFoundError", "OSError", "NotADirectoryError", "PermissionError") and verdict is None:
+                        # two clears racing on a directory may end in an OSError (observation); anything else is a bug
+                        verdict = {"class": "maintenance_op_broke", "detail": "actor %d: %s raised %s: %s at %s" % (aid, op, val[0], val[1], val[2]),
+                                   "sig": {"what": "maintenance_op_broke", "exc": val[0]}}
                     if op[0] == "reduce" and verdict is None:
                         # eviction is documented as tolerant to entries vanishing under its feet (and never raises on the
                         # unchanged tree); exceptions of clear() -- two concurrent clears race in delete_folder -- stay
